@@ -31,7 +31,7 @@ def W64 : Nat := 18446744073709551616
 /-- Go `a + b` on uint64 -/
 @[inline] def add64 (a b : Nat) : Nat := (a + b) % W64
 /-- Go `a - b` on uint64 (for `a, b < 2^64`) -/
-@[inline] def sub64 (a b : Nat) : Nat := (a + W64 - b) % W64
+@[inline] def sub64 (a b : Nat) : Nat := (W64 + a - b) % W64
 /-- Go `uint32(a)` -/
 @[inline] def u32 (a : Nat) : Nat := a % 4294967296
 
